@@ -508,7 +508,7 @@ class NDNApp:
         """
         name = Name.normalize(name)
         node = self._prefix_tree.setdefault(name, PrefixTreeNode())
-        if node.callback:
+        if node.callback is not None:
             raise ValueError(f'Duplicated registration: {Name.to_str(name)}')
         node.callback = func
         node.extra_param = {'raw_packet': need_raw_packet, 'sig_ptrs': need_sig_ptrs}
